@@ -8,11 +8,12 @@ name=$1; prop=$2; patch=$(readlink -f "$3"); demo=$(readlink -f "$4"); pkg=$5; s
 checks=${*:-$prop}
 export GOFLAGS=-mod=mod GOPROXY=off GOSUMDB=off GOTOOLCHAIN=local
 W=$(mktemp -d /tmp/seedchk.XXXXXX)
+ERRF=$(mktemp /tmp/seedchk-err.XXXXXX)   # (one per run: two confirmations may run at the same time)
 H=$(printf '%s' "$(readlink -f "$W")" | sha1sum | cut -c1-10)
 out=/verif/seeded/$name
 mkdir -p "$out"
 git -C /repo worktree add -q --detach "$W" "${SEED_BASE:-HEAD}" || exit 3   # SEED_BASE: the commit a stored change was written for (meta.json base_commit)
-cleanup() { git -C /repo worktree remove --force "$W" 2>/dev/null; rm -rf "$W"; rm -rf /verif/build/bin/*-scratch-$H /verif/build/mod-*-scratch-$H /verif/build/overlay-*-scratch-$H 2>/dev/null; }
+cleanup() { git -C /repo worktree remove --force "$W" 2>/dev/null; rm -rf "$W" "$ERRF"; rm -rf /verif/build/bin/*-scratch-$H /verif/build/mod-*-scratch-$H /verif/build/overlay-*-scratch-$H 2>/dev/null; }
 trap cleanup EXIT
 cd "$W"
 demoname=seed_demo_test.go
@@ -31,10 +32,10 @@ suite_ok=$(echo "$suite" | grep -c "exit=0")
 echo "demo on unchanged code passes: $base_ok | change builds: $build_ok | demo with change fails: $mut_fail | existing suite with change passes: $suite_ok"
 results=""
 for c in $checks; do
-  o=$(VERIF_REPO="$W" /verif/check "$c" 2>/tmp/seedchk.err | grep -E "^(DETAIL|VIOLATION|KNOWN-FINDING)" | head -2 | cut -c1-500)
+  o=$(VERIF_REPO="$W" /verif/check "$c" 2>"$ERRF" | grep -E "^(DETAIL|VIOLATION|KNOWN-FINDING)" | head -2 | cut -c1-500)
   rc=${PIPESTATUS[0]}
   code=$(VERIF_REPO="$W" true; echo $rc)
-  echo "check $c -> $( [ -n "$o" ] && echo "$o" || tail -1 /tmp/seedchk.err | cut -c1-200 )"
+  echo "check $c -> $( [ -n "$o" ] && echo "$o" || tail -1 "$ERRF" | cut -c1-200 )"
   results="$results$c: $( [ -n "$o" ] && echo "$o" | head -1 | cut -c1-300 || echo 'no violation reported' )\n"
 done
 cp "$patch" "$out/patch.diff"
